@@ -697,6 +697,62 @@ class Driver:
                     idx1.setdefault(d["sig"], []).extend(d.get("offs", []))
         return sums, idx1
 
+    def runs_abs(self, s, dt, a0, got):
+        """candidate runs for samples with absolute ids a0.. (used for DATA chunks of a file image)"""
+        n = len(got)
+        cuts = {a0, a0 + n}
+        for (q, id0, m, gen, gid) in s["wev"]:
+            for c in (id0, id0 + m):
+                if a0 < c < a0 + n:
+                    cuts.add(c)
+        cuts = sorted(cuts)
+        fill = is_fill(dt, got)
+        runs = []
+        for a, b in zip(cuts[:-1], cuts[1:]):
+            piece = got[a - a0:b - a0]
+            ids = np.arange(a, b, dtype=np.int64)
+            cands = []
+            if fill[a - a0:b - a0].all():
+                cands.append(0)
+            for (q, id0, m, gen, gid) in s["wev"]:
+                if id0 <= a and b <= id0 + m and np.array_equal(gen_values(dt, gen, gid, ids, s["base"], self.seed), piece):
+                    cands.append(q)
+            runs.append({"p": _clip(a - s["base"]), "n": b - a, "c": cands})
+        return runs
+
+    def op_liftfile(self, op):
+        """independent decode of a file image: FileHdr, one Chunk event per chunk, FileEnd"""
+        import lifter
+        with open(self.path(op.get("file", "a")), "rb") as f:
+            img = f.read()
+        fh, chunks, why = lifter.parse_image(img)
+        bases = {g: (s["base"], s["tbase"]) for g, s in self.sigs.items()}
+        self.emit({"e": "FileHdr", "present": fh.get("present", False), "ident_ok": fh.get("ident_ok", False), "crc_ok": fh.get("crc_ok", False),
+                   "len_eq_size": fh.get("length", -1) == len(img), "major": fh.get("major", -1), "size": _clip(len(img)), "file": op.get("file", "a")})
+        for ch in chunks:
+            d = lifter.decode(ch, str_tok, fnv, bases)
+            ev = {"e": "Chunk", "off": ch["off"], "tag": ch["tag"], "meta": ch["meta"], "plen": ch["plen"], "pprev": ch["pprev"],
+                  "next": _clip(ch["next"]), "prev": _clip(ch["prev"]), "hcrc": ch["crc_ok"], "pcrc": ch["pcrc_ok"], "pad0": ch["pad0"], "rsv": ch["rsv"],
+                  "kind": d["kind"], "tt": d["tt"], "ck": d["ck"], "sig": d["sig"], "lvl": d["lvl"], "ok": bool(d["ok"]),
+                  "ts": d.get("ts", 0), "cnt": d.get("cnt", 0), "esb": d.get("esb", 0),
+                  "offs": [_clip(o) for o in (d.get("offs") or d.get("heads") or [])],
+                  "pairs": d.get("ient") or d.get("uent") or ([[d.get("ts", 0), d["utc"]]] if "utc" in d else []),
+                  "toks": d.get("ent") or [], "sent": d.get("sent") or [],
+                  "tok": d.get("tok", ""), "size": d.get("size", 0), "st": d.get("st", d.get("stype", 0)), "id": d.get("id", d.get("meta12", 0)),
+                  "strs": d.get("s") or [], "sdef": {}, "runs": [], "rsv0": bool(d.get("rsv0", True)), "hdr1": bool(d.get("hdr1", True))}
+            if d["kind"] == "signal":
+                ev["sdef"] = {"id": d["id"], "src": d["src"], "st": d["st"], "dt": dt_name(d["dtc"]), "rate": d["rate"], "spd": d["spd"], "sdf": d["sdf"],
+                              "eps": d["eps"], "sumdf": d["sumdf"], "adf": d["adf"], "udf": d["udf"], "name": d["name"], "units": d["units"]}
+            if d["kind"] == "track" and d["tt"] == 0 and d["ck"] == 2:
+                s = self.sigs.get(d["sig"])
+                body = d.get("body", b"")
+                if s and s["dt"] and d["esb"] == DTYPES[s["dt"]][1] and len(body) * 8 >= d["cnt"] * d["esb"]:
+                    got = unpack(s["dt"], body, d["cnt"])
+                    ev["runs"] = self.runs_abs(s, s["dt"], d["ts"] + s["base"], got)
+                    ev["blen"] = len(body)
+            self.emit(ev)
+        self.emit({"e": "FileEnd", "why": why, "nchunks": len(chunks), "size": _clip(len(img))})
+
     def op_sumsnap(self, op):
         """remember the stored summaries of a file; report which level-1 index entries are 0 (omitted blocks)"""
         sums, idx1 = self._fsr_summaries(op.get("file", "a"))
